@@ -820,6 +820,31 @@ func supervise(spec *Spec, tier string, seed int64, workers int) int {
 			}
 		}
 		if confirmed == 0 {
+			// A report of the Go runtime's own pointer sanitizer (checkptr, compiled in by -race / -d=checkptr) whose
+			// RUNNING goroutine is inside the library is a finding in itself: whether it fires depends on where the
+			// allocator placed the slice, so the case need not reproduce alone. The log is the witness.
+			if site, line, ok := sanitizerReport(tail); ok {
+				confirmed++
+				sig := fmt.Sprintf("sanitizer/bad-pointer/%s", site)
+				if kw, known := isKnown(sig); known {
+					total.Known[sig] = kw
+				} else {
+					v := &violation{Signature: sig, What: "the runtime's pointer sanitizer stopped the process inside the library: " + line, Sub: "(child process)", Index: -1, Seed: seed, Tier: tier, Property: spec.Property, Detail: map[string]interface{}{"log_tail": tail}}
+					path := filepath.Join(outDir(), "replays", fmt.Sprintf("%s-sanitizer-%d-%d.json", spec.Property, seed, round))
+					os.MkdirAll(filepath.Dir(path), 0o755)
+					jb, _ := json.MarshalIndent(v, "", " ")
+					os.WriteFile(path, jb, 0o644)
+					v.Replay = path
+					if !violSeen[sig] {
+						violSeen[sig] = true
+						total.Violations = append(total.Violations, v)
+						total.Replays[sig] = path
+					}
+					total.ViolCount++
+				}
+			}
+		}
+		if confirmed == 0 {
 			fatalNotes = append(fatalNotes, fmt.Sprintf("round %d: child ended abnormally (hung=%v, %v) but no in-flight case reproduced it in isolation; log tail: %s", round, hung, werr, strings.Join(tail, " | ")))
 		}
 	}
@@ -996,6 +1021,34 @@ func tailFile(path string, n int) []string {
 		lines = lines[len(lines)-n:]
 	}
 	return lines
+}
+
+// sanitizerReport recognises the runtime's fatal pointer reports ("fatal error: checkptr: ...", "found bad pointer in
+// Go heap (incorrect use of unsafe or cgo?)", a fault signal) in a dead child's log and returns the library frame of
+// the goroutine that was running.
+func sanitizerReport(lines []string) (site, line string, ok bool) {
+	for i, l := range lines {
+		if !strings.HasPrefix(l, "fatal error: checkptr") && !strings.HasPrefix(l, "fatal error: found bad pointer in Go heap") && !strings.HasPrefix(l, "fatal error: unexpected signal") && !strings.HasPrefix(l, "unexpected fault address") {
+			continue
+		}
+		// the first goroutine listed after the message is the one that was running
+		var stack []string
+		headers := 0
+		for _, m := range lines[i+1:] {
+			if strings.HasPrefix(m, "goroutine ") {
+				if headers++; headers > 1 {
+					break
+				}
+			}
+			stack = append(stack, m)
+		}
+		site = panicSite(strings.Join(stack, "\n"))
+		if site == "outside-ws" {
+			return "", "", false
+		}
+		return site, l, true
+	}
+	return "", "", false
 }
 
 func firstFatalLine(lines []string) string {
